@@ -162,7 +162,12 @@ class Gen:
         if form == "file":
             return {"file": self.new_file(self.nbytes(self.file_size()))}
         if form == "file_direct":
-            return {"file_direct": self.new_file(str(self.uint()).encode() + (b"\n" if self.p(0.5) else b""), "n", ".txt")}
+            txt = str(self.uint())
+            if self.p(0.3):
+                # a size file holds a decimal number: zero-padded to a fixed width it is still that decimal number (C05-s)
+                self.features.add("size:file_direct-zero-padded")
+                txt = str(self.r.choice([64, 100, 4096, 262144, 1234567, 777, 10, 0])).rjust(self.r.choice([4, 8, 10]), "0")
+            return {"file_direct": self.new_file(txt.encode() + (b"\n" if self.p(0.5) else b""), "n", ".txt")}
         if depth < self.max_depth:
             return {"envelope": self.envelope(depth + 1, child=True)}
         return {"raw": self.uint()}
